@@ -19,7 +19,7 @@ const ALPHA: f32 = 0.01;
 /// - `n`: Number of steps taken.
 /// - `p_accept`: Acceptance probability.
 /// - `mean`: Mean of the parameters.
-/// - `mean_sq`: Mean of the squared parameters.
+/// - `mean_sq`: Sum of squared deviations of the parameters from their running mean.
 /// - `last_state`: Last state of the chain.
 /// - `accept_queue`: Queue tracking acceptance history.
 #[derive(Debug, Clone, PartialEq)]
@@ -96,12 +96,12 @@ impl ChainTracker {
         let x_arr =
             ndarray::ArrayView1::<T>::from_shape(self.n_params, x)?.mapv(|x| x.to_f32().unwrap());
 
-        self.mean = (self.mean.clone() * (n - 1.0) + x_arr.clone()) / n;
-        if self.n == 1 {
-            self.mean_sq = x_arr.pow2();
-        } else {
-            self.mean_sq = (self.mean_sq.clone() * (n - 1.0) + (x_arr.pow2())) / n;
-        };
+        // Welford's update: `mean_sq` holds the sum of squared deviations from the running mean.
+        // (Accumulating the mean of x^2 and subtracting mean^2 cancels catastrophically in f32
+        // as soon as the values are large compared with their spread.)
+        let delta = x_arr.clone() - self.mean.clone();
+        self.mean = self.mean.clone() + delta.clone() / n;
+        self.mean_sq = self.mean_sq.clone() + delta * (x_arr.clone() - self.mean.clone());
 
         //  x_1 = (1 - a) x_0 + a x_1
         // <=> x_1 (1 - a) = (1 - a) x_0
@@ -135,7 +135,7 @@ impl ChainTracker {
             n: self.n,
             p_accept: self.p_accept,
             mean: self.mean.clone(),
-            sm2: (self.mean_sq.clone() - self.mean.pow2()) * n / (n - 1.0),
+            sm2: self.mean_sq.clone() / (n - 1.0),
         }
     }
 }
@@ -239,12 +239,10 @@ impl MultiChainTracker {
         let x_arr = ndarray::ArrayView2::<T>::from_shape((self.n_chains, self.n_params), x)?
             .mapv(|x| x.to_f32().unwrap());
 
-        self.mean = (self.mean.clone() * (n - 1.0) + x_arr.clone()) / n;
-        if self.n == 1 {
-            self.mean_sq = x_arr.pow2();
-        } else {
-            self.mean_sq = (self.mean_sq.clone() * (n - 1.0) + (x_arr.pow2())) / n;
-        };
+        // Welford's update (see `ChainTracker::step`): `mean_sq` is the sum of squared deviations.
+        let delta = x_arr.clone() - self.mean.clone();
+        self.mean = self.mean.clone() + delta.clone() / n;
+        self.mean_sq = self.mean_sq.clone() + delta * (x_arr.clone() - self.mean.clone());
 
         // Update self.p_accept and last state
         self.p_accept = ndarray::Zip::from(x_arr.rows())
@@ -297,7 +295,7 @@ impl MultiChainTracker {
             .pow2()
             .sum_axis(Axis(0))
             * fac;
-        let sm2 = (self.mean_sq.clone() - self.mean.pow2()) * n / (n - 1.0);
+        let sm2 = self.mean_sq.clone() / (n - 1.0);
         let within = sm2
             .mean_axis(Axis(0))
             .ok_or("Mean reduction across chains for mean of squares failed.")?;
